@@ -88,6 +88,20 @@ func init() {
 			for _, p := range nodex.PrimJobs(tier) {
 				out = append(out, JobDef{Name: p, Args: []string{"job", "-prop", "C10", "-tier", tier, "-universe", p}})
 			}
+			// GOARCH=386 build: the portable (non-assembly) 16-slot routines
+			if bin := os.Getenv("VERIF_BIN_386"); bin != "" {
+				for _, p := range nodex.PrimJobs(tier) {
+					quick386 := map[string]bool{"prim/node16/n0": true, "prim/node16/n1": true, "prim/node16/n5": true, "prim/node16/n12": true, "prim/node16/n16": true}
+					if strings.HasPrefix(p, "prim/node16/") && (tier == "thorough" || quick386[p]) {
+						out = append(out, JobDef{Name: p + "@386", Bin: bin, Args: []string{"job", "-prop", "C10", "-tier", tier, "-universe", p}})
+					}
+				}
+				for _, s := range nodex.Specs(tier) {
+					if strings.HasPrefix(s.Name, "N16@15") || strings.HasPrefix(s.Name, "N48@14") || s.Name == "N4-16/alpha0" || s.Name == "N4-16/alpha1" {
+						out = append(out, JobDef{Name: "node/" + s.Name + "@386", Bin: bin, Args: []string{"job", "-prop", "C10", "-tier", tier, "-universe", "node/" + s.Name}})
+					}
+				}
+			}
 			return out
 		}}
 }
